@@ -1104,7 +1104,11 @@ func (c *FnCtx) verify() (err error) {
 				err = fmt.Errorf("outside subset: %s", u.msg)
 				return
 			}
-			panic(r)
+			// an internal error of the generator is a tool limit for this function, never a verdict
+			msg := fmt.Sprintf("generator error: %v", r)
+			c.outside = append(c.outside, msg)
+			err = fmt.Errorf("outside subset: %s", msg)
+			return
 		}
 	}()
 	fd := c.fi.Decl
@@ -1207,7 +1211,7 @@ func (c *FnCtx) checkPost(st *State, rets []*Term, site ast.Node) {
 		st.pc = append(st.pc, g)
 	}
 	c.checkFrame(st, site)
-	if c.contract.Fresh && len(rets) > 0 {
+	if c.contract.Fresh && len(rets) > 0 && rets[0].Sort == SInt {
 		c.oblige(st, "post", c.fi.Decl, "fresh", "result is freshly allocated", mkOr(mkEq(rets[0], intLit(0)), mkLt(c.pre.alloc, rets[0])))
 	}
 }
